@@ -16,7 +16,11 @@ from . import common, hist, pipeline, progs
 
 DESIGN_REF = "DESIGN.md §5 C10"
 ASSUMPTIONS = ["the failing function raises after its sub-calls returned (a body that fails earlier is the same case for a shorter body)"]
-KINDS = ["Boom", "BoomBase", "KeyboardInterrupt", "SystemExit", "GeneratorExit"]
+# user-defined classes (an Exception and a BaseException subclass), the BaseException-only built-ins, and built-in exception
+# classes that library code is tempted to catch and translate
+KINDS = ["Boom", "BoomBase", "KeyboardInterrupt", "SystemExit", "GeneratorExit", "KeyError", "AttributeError", "TypeError",
+         "AssertionError", "FileNotFoundError", "StopIteration", "LookupError", "NotImplementedError", "ImportError", "RecursionError",
+         "ValueError", "IndexError"]
 
 
 def run(ctx):
@@ -30,7 +34,7 @@ def run(ctx):
         names = [f["name"] for f in w["funs"]]
         victims = names if thorough else rng.sample(names, min(3, len(names)))
         for victim in victims:
-            kind = KINDS[(wi + names.index(victim)) % len(KINDS)]
+            kind = KINDS[(3 * wi + names.index(victim) + ctx["seed"]) % len(KINDS)] if "seed" in ctx else KINDS[(3 * wi + names.index(victim)) % len(KINDS)]
             store_kind = ["memory", "local", "local_lru"][(wi + len(victim)) % 3]
             wf = copy.deepcopy(w)
             for f in wf["funs"]:
